@@ -343,15 +343,21 @@ def orbit_registry_extension(ck, tier, seed):
         raise MachineryError("OrbitRegistry_asfound_readd: expected NoDuplicates / LookupAgree to be violated, got %s" % ra.violated)
     os.makedirs(os.path.join(wd, "simr"))
     run_tlc("OrbitRegistry", "OrbitRegistry_readd_sim.cfg", workdir=wd, workers=1, timeout=600, depth=16,
-            simulate="file=%s,num=%d" % (os.path.join(wd, "simr", "b"), nb), seed=seed + 5)
+            simulate="file=%s,num=%d" % (os.path.join(wd, "simr", "b"), 40 * nb), seed=seed + 5)
     behs = []
-    n_readd = 0
+    n_readd = n_kept = 0
     for sub in ("sim", "simr"):
         for f in sorted(os.listdir(os.path.join(wd, sub))):
             b = tlaval.parse_sim_file(os.path.join(wd, sub, f))
             if b:
-                behs.append([[list(st["last"]), {k: st[k] for k in ("order", "raiser", "ecc", "sma", "byInst", "byName")}] for _a, _g, st in b])
-                n_readd += sum(1 for x in behs[-1] if x[0][0] == "ReAdd")
+                bb = [[list(st["last"]), {k: st[k] for k in ("order", "raiser", "ecc", "sma", "byInst", "byName")}] for _a, _g, st in b]
+                nr = sum(1 for x in bb if x[0][0] == "ReAdd")
+                # a ReAdd is one of several hundred enabled steps: simulate 40 x as many behaviours and keep those that contain one
+                if sub == "simr" and (nr == 0 or n_kept >= nb):
+                    continue
+                n_kept += sub == "simr"
+                behs.append(bb)
+                n_readd += nr
     if not behs:
         raise MachineryError("no OrbitRegistry behaviours")
     if n_readd == 0:
